@@ -1,2 +1,3 @@
 import CbProofs.Preproc
 import CbProofs.PreprocExpand
+import CbProofs.FlatIndex
